@@ -121,6 +121,21 @@ INFO = {
              "mis-grouping is a violation.",
         note="Exact rationals; open values for fractional exponents / large magnitudes.",
         ref="6/C13"),
+    "C16": dict(
+        text="TLC checks the flag-resolution sequence (since, end, min(end, now), start; default and explicit step) against the "
+             "declarative Resolve/StepDenote/DefaultStep over a grid of instants 2001-2200 on the digit-count and 2^31 boundaries, the four "
+             "spellings, all presence patterns and malformed classes; every case and random ones are executed by the real parseTimeRange / "
+             "parseStep through an overlay test with an injected clock and TLC validates each recorded resolution.",
+        note="Wide integers as <<hi, lo, ns>> triples; RFC3339 rendering trusted to time.Format; sub-millisecond fractional digits left open.",
+        ref="6/C16"),
+    "C15": dict(
+        text="TLC checks the renderer's palette assignment (index always inside the table for any number of containers) and that the "
+             "formatted output of every bounded result parses as exactly one line per entry in time order with consistent colours; all "
+             "cases and random results with up to 30 containers are rendered by the real renderResult (overlay test) and TLC parses the "
+             "produced bytes with a backtracking recogniser (Render.CanParse): every entry once, time order, trimmed message, optional "
+             "name/timestamp, palette colours consistent per container, no escape bytes with colour off, never an error or panic.",
+        note="Timestamp text trusted to time.Format; tie order and colour choice left open.",
+        ref="6/C15"),
 }
 
 NOT_YET = "no check registered yet in this revision (machinery under construction; see DESIGN.md section 6 for the planned model)"
